@@ -149,9 +149,7 @@ Theorem no_panic : forall digest rsa_ok ecdsa_ok dsa_ok k,
   (forall data sg, verify digest rsa_ok ecdsa_ok dsa_ok k data sg <> Panic) /\
   (forall s, verify_sth digest rsa_ok ecdsa_ok dsa_ok k s <> Panic) /\
   (forall s e, verify_sct digest rsa_ok ecdsa_ok dsa_ok k s e = Panic <-> sct_version s = 0 /\ entry_nil e).
-Proof.
-  intros. split; [intros; apply verify_no_panic | split; [intros; apply verify_sth_no_panic | intros; apply verify_sct_panic_iff]].
-Qed.
+Proof. exact no_panic_lemma. Qed.
 Print Assumptions no_panic.
 
 (* ---------------- non-vacuity ---------------- *)
